@@ -90,7 +90,7 @@ def gen_cases(tier, seed):
             for sync in (False, True):
                 add(["good", a, b, "good2"], sync=sync, ack=(len(a) + len(b)) % 2 == 0, close={"how": "fin", "at": None})
     # random scripts
-    n = 250 if tier == "quick" else 20000
+    n = 250 if tier == "quick" else 60000
     for i in range(n):
         k = rng.randint(1, 8)
         kinds = [rng.choice(KINDS) for _ in range(k)]
